@@ -93,7 +93,7 @@ struct Run {
 	// statistics for the non-trivial rules
 	int n_redeliver = 0, n_red_cache = 0, n_red_qmem = 0, n_red_pending = 0, n_red_lastfrag = 0, n_red_case = 0, n_red_otheraddr = 0;
 	int n_multi3 = 0, n_nreq_ok = 0, n_badfrag = 0, n_dup_twice = 0, n_realsoon = 0, n_tun_via_held = 0, n_long = 0;
-	int n_cache_same = 0, n_trunc = 0, n_lost_answers = 0, n_giveup = 0, n_raw = 0, n_recycled = 0, n_recycled_data_before_n = 0, n_c2c = 0, n_red_altdomain = 0, n_qr = 0, n_hsreq = 0, n_wrap = 0, n_merge = 0, n_glue = 0;
+	int n_cache_same = 0, n_trunc = 0, n_lost_answers = 0, n_giveup = 0, n_raw = 0, n_recycled = 0, n_recycled_data_before_n = 0, n_c2c = 0, n_red_altdomain = 0, n_qr = 0, n_hsreq = 0, n_wrap = 0, n_merge = 0, n_glue = 0, n_infra = 0;
 	uint64_t n_data_emits = 0;
 	std::map<int, std::pair<int, Bytes>> c2c_on_delivery;   // last-fragment query record -> (receiving peer, packet): registered in the receiver's stream when the server reads that query
 	uint64_t t_last_sent = 0;    // when the harness last handed a query to the network
@@ -773,6 +773,19 @@ inline void run_sessions(Tape &t, const Profile &P, Run &R)
 				E.record(p, id, false, -1, p.sc.addr, name, refproto::qtype_of(p.sc.qtype_k));
 				E.note(fmt("peer%d handshake-type request %.12s id=%u", E.peer_index(p), name.c_str(), id));
 				R.n_hsreq++;
+				break;
+			}
+			if (P.qr_games && t.chance(1, 12)) {
+				// the queries a delegating zone sends besides tunnel traffic: A for ns.<domain> and www.<domain>, NS for the domain itself
+				// (any letter case), and look-alikes that ARE tunnel requests (nsx.<domain>: command 'n').  One query, at most one answer.
+				static const char *PRE[] = {"ns.", "www.", "NS.", "Www.", "", "nsx.", "wwww.", "ns.ns."};
+				int k = (int)t.below(8);
+				std::string name = std::string(PRE[k]) + p.sc.domain;
+				uint16_t qt = k == 4 ? 2 : (t.chance(4, 5) ? 1 : 2);
+				uint16_t id = p.sc.send_name(name, -1, qt);
+				E.record(p, id, false, -1, p.sc.addr, name, qt);
+				E.note(fmt("peer%d infrastructure query %s type %u id=%u", E.peer_index(p), name.c_str(), qt, id));
+				R.n_infra++;
 				break;
 			}
 			E.do_ping(p, P.ack_games ? (int)t.pick({8, 2, 2, 1, 1}) : 0); last_q = sim::W.now; break;
